@@ -889,13 +889,13 @@ def _expr_depends(fn, expr, roots: Set[str], before, _depth=0) -> bool:
     return False
 
 
-def check_g(ck, repo):
+def check_g(ck, repo, rule="C01.g", only=None):
     """derived state: a method f assigning self.X_ from self.Y.<...>; every
     write of self.Y in set_params must be followed, on every normal path, by a
     call to f."""
     for ci in sorted(repo.all_classes(), key=lambda c: c.qualname):
         sp = ci.methods.get("set_params")
-        if sp is None:
+        if sp is None or (only is not None and ci.name not in only):
             continue
         derivers = {}  # source attr -> (method name, derived attr)
         for mname, m in ci.methods.items():
@@ -925,10 +925,10 @@ def check_g(ck, repo):
             for w in writes:
                 p = paths_avoiding(cfg, w, {cfg.exit.id}, refresh, follow=lambda a, lab, b: lab != "exc")
                 if p is None:
-                    ck.holds("C01.g", sp, w.ast, f"every normal path from this write of self.{src_attr} calls self.{mname}() (recomputes self.{derived})")
+                    ck.holds(rule, sp, w.ast, f"every normal path from this write of self.{src_attr} calls self.{mname}() (recomputes self.{derived})")
                 else:
                     ck.violated(
-                        "C01.g",
+                        rule,
                         sp,
                         w.ast,
                         f"self.{src_attr} is replaced but self.{derived} (computed from it by {mname}) is not recomputed on some path: the object keeps calling the old {src_attr}",
